@@ -83,6 +83,14 @@ CHECKS["C07"] = dict(
     design_ref="5/C07",
 )
 
+CHECKS["C20"] = dict(
+    category="proof",
+    text="Lanelet._compute_polyline_cumsum_dist / distance, interpolate_position and merge_lanelets are executed symbolically from the real source on lanelets with symbolic vertex coordinates (float and int arrays, 2-4 vertices): d[0]=0, d[i]-d[i-1] is the segment length (hence non-decreasing and ending at the centre-line length); for every 0<=s<=length the returned points are the convex combinations of the bracketing vertices with one common parameter in [0,1], no index leaves the polyline, inadmissible s is rejected; merged boundaries are the concatenation with the joint vertex once and the length is the sum, for every way the predecessor/successor link can be recorded. find_lanelet_successors/predecessors_in_range are executed for every directed graph on <= 3 lanelets (up to relabelling) plus six 4-lanelet graphs (cycles, diamond, inner cycle) with SYMBOLIC lanelet lengths and range: termination, chains of links, loop-free, start avoided, every direct neighbour covered, extension only while the accumulated length is below the range - decided for all length values per graph.",
+    note="graph size bounded (all graphs on <= 3 lanelets, selected graphs on 4; thorough tier adds 400 canonical 4-lanelet graphs and 3-vertex interpolation); polyline vertex counts 2-4; sqrt by its defining axioms; floats are reals",
+    technique="deductive: AST symbolic execution of real source, symbolic coordinates / lengths, graphs enumerated up to a stated size, VCs discharged by z3",
+    design_ref="5/C20",
+)
+
 NOT_YET = {}
 
 def main():
